@@ -41,6 +41,17 @@ def seqs(K, rnd, n_random, length):
             out.append('%s,%s,rst0,swp0:%d,tch%d' % (fill, fail, other, K))
             out.append('%s,%s,rst%d,acq0:%d,rst0,swp0:%d,tch%d' % (fill, fail, other, K, other, K))
             out.append('%s,%s,rst%d,acq0:%d,tch%d,rst0,swp0:%d,swp1:%d,tch%d' % (fill, fail, other, K, K, other, other, K))
+    # guards that hold a (marked) NULL pointer - acquired from a cell that was emptied (nul) - are copy-constructed and dropped; no slot may get lost:
+    # afterwards the thread cycles a guard and fills all its K guards again (seeded change c18_5: copy construction of an empty hazard_eras guard
+    # shared the era slot without counting the copy).  K >= 2 only: the empty guard and its copy may each occupy a slot.
+    if K >= 2:
+        kk = min(K, 4)
+        refill = ','.join('acq%d:%d' % (1 + i % 2, i) for i in range(kk)); tch = ','.join('tch%d' % i for i in range(kk)); drop = ','.join('rst%d' % i for i in range(kk))
+        cyc = 'acq1:0,tch0,rst0'
+        for use in ('cgd0:0', 'cgd0:0,cgd0:0'):
+            out.append('nul0:1,acq0:0,%s,rst0,%s,%s,%s,%s,%s' % (use, refill, tch, drop, refill, tch))
+            out.append('nul0:1,acq0:0,%s,rst0,%s,%s,%s,%s,%s' % (use, cyc, cyc, cyc, refill, tch))
+            out.append('nul0:1,acq0:0,%s,acq1:0,tch0,rst0,%s,%s,%s' % (use, cyc, refill, tch))
     for i in range(n_random):
         out.append(','.join(rnd.choice(ops) for _ in range(length)))
     return out
@@ -94,4 +105,4 @@ def run(ctx):
                   'only when K guards of the thread hold a slot, all guard contents stay as the smart-pointer model predicts (existing guards keep '
                   'protecting), no object is destroyed under a guard, acquisition succeeds again after a release; non-trivial = sequences that reach exhaustion or overlap',
                   ['a copy-assignment target counts as holding a slot even if empty (the statement does not forbid it)',
-                   'cells are never null in these programs'])
+                   'cells are null only in the marked-null copy-construction sequences'])
